@@ -50,14 +50,14 @@ PROFILES = {
     "V2": (P("CRG", 3, 0, "gen", False, ["reactant", "product", "reverse"], "none", True), P("CRG", 3, 2, "gen", False, ["reactant", "product", "reverse"], "none", True)),
     "V4": (P("SCRG", 4, 0, "stereo", False, ["reactant", "product", "reverse"], "none", True), P("SCRG", 4, 2, "stereo", False, ["reactant", "product", "reverse"], "none", True)),
     # subgraph / compose / components (C17)
-    "S1": (P("MG", 3, 0, "gen", True, ALGEBRA, "none", True),
-           P("MG", 3, 1, "gen", True, ALGEBRA, "none", True)),
-    "S2": (P("CRG", 2, 0, "gen", True, ALGEBRA, "none", True),
-           P("CRG", 3, 0, "gen", True, ALGEBRA, "none", True)),
-    "S3": (P("SMG", 4, 0, "stereo", True, ALGEBRA, "none", True),
-           P("SMG", 4, 1, "stereo", True, ALGEBRA, "none", True)),
-    "S4": (P("SCRG", 4, 0, "stereo", True, ALGEBRA, "none", True),
-           P("SCRG", 4, 1, "stereo", True, ALGEBRA, "none", True)),
+    "S1": (P("MG", 3, 0, "gen", True, ALGEBRA, "none", True, subsets="all"),
+           P("MG", 3, 1, "gen", True, ALGEBRA, "none", True, subsets="all")),
+    "S2": (P("CRG", 2, 0, "gen", True, ALGEBRA, "none", True, subsets="all"),
+           P("CRG", 3, 0, "gen", True, ALGEBRA, "none", True, subsets="all")),
+    "S3": (P("SMG", 4, 0, "stereo", True, ALGEBRA, "none", True, subsets="all"),
+           P("SMG", 4, 1, "stereo", True, ALGEBRA, "none", True, subsets="all")),
+    "S4": (P("SCRG", 4, 0, "stereo", True, ALGEBRA, "none", True, subsets="all"),
+           P("SCRG", 4, 1, "stereo", True, ALGEBRA, "none", True, subsets="all")),
 }
 
 # (max transitions replayed, max seconds) per profile; a truncated profile is reported as such
@@ -66,7 +66,7 @@ CAPS = {"quick": (60000, 75), "thorough": (1500000, 1500)}
 PROP_PROFILES = {
     "C09": ["E1", "E2", "E3", "E4"],
     "C19": ["E1", "E2", "E3", "E4"],
-    "C10": ["D1", "D2", "D3", "D4"],
+    "C10": ["D1", "D2", "D3", "D4", "S3", "S4"],
     "C11": ["R1", "R2", "R3", "R4"],
     "C17": ["S1", "S2", "S3", "S4"],
     "C06": ["X3", "X4"],
@@ -279,8 +279,9 @@ def collect(prop: str, tier: str, rep: Reporter, with_traces=True) -> dict:
             loose[k] = loose.get(k, 0) + v
         samples += r["samples"][:2]
         if r["skipped"]:
-            rep.note(f"profile {r['name']}: {r['skipped']} transitions skipped (source state had no representative "
-                     f"because the transition creating it failed)")
+            rep.note(f"profile {r['name']}: {r['skipped']} transitions skipped (their source state has no real "
+                     f"representative: it is reached only through an allowed outcome the implementation does not take, or the "
+                     f"transition creating it failed)")
         for f in r["fails"]:
             if prop in f["props"]:
                 rep.violation(f"{prop}|{f['sig']}", f["what"], {"profile": r["name"], **f["detail"]})
